@@ -10,6 +10,7 @@
 #include <string>
 #include <vector>
 
+#include "common/types.h"
 #include "common/rng.h"
 #include "draco/attributes/attribute_transform_data.h"
 #include "draco/mesh/mesh.h"
@@ -46,7 +47,7 @@ inline std::string PointRecord(const draco::PointCloud &pc, const std::vector<At
   for (auto &d : atts) {
     const draco::PointAttribute *a = pc.attribute(d.att_id);
     const draco::AttributeValueIndex vi = a->mapped_index(draco::PointIndex(p));
-    const int n = d.nc * draco::DataTypeLength(static_cast<draco::DataType>(d.dt));
+    const int n = d.nc * vf::TypeBytes(static_cast<draco::DataType>(d.dt));
     const uint8_t *src = a->GetAddress(vi);
     if (xf) { xf(d.att_id, vi.value(), src, tmp); rec.append(reinterpret_cast<const char *>(tmp), n); }
     else rec.append(reinterpret_cast<const char *>(src), n);
@@ -64,7 +65,7 @@ inline Canon MakeCanon(const draco::PointCloud &pc, const draco::Mesh *mesh, con
   }
   std::stable_sort(c.atts.begin(), c.atts.end(), [](const AttDesc &x, const AttDesc &y) { return x.uid < y.uid; });
   for (size_t i = 1; i < c.atts.size(); ++i) if (c.atts[i].uid == c.atts[i - 1].uid) c.duplicate_uids = true;
-  for (auto &d : c.atts) c.rec += d.nc * draco::DataTypeLength(static_cast<draco::DataType>(d.dt));
+  for (auto &d : c.atts) c.rec += d.nc * vf::TypeBytes(static_cast<draco::DataType>(d.dt));
   const uint32_t np = pc.num_points();
   c.points.reserve(np);
   for (uint32_t p = 0; p < np; ++p) c.points.push_back(PointRecord(pc, c.atts, p, xf));
@@ -235,7 +236,7 @@ inline std::string CheckStructure(const draco::PointCloud &pc, const draco::Mesh
     if (!a) return "null-attribute";
     if (a->num_components() == 0) return "num-components-0";
     if (a->data_type() <= draco::DT_INVALID || a->data_type() >= draco::DT_TYPES_COUNT) return "invalid-data-type";
-    const int64_t elem = static_cast<int64_t>(a->num_components()) * draco::DataTypeLength(a->data_type());
+    const int64_t elem = static_cast<int64_t>(a->num_components()) * vf::TypeBytes(a->data_type());
     if (a->byte_stride() < elem) return "byte-stride<component-bytes";
     if (!a->buffer()) { if (a->size() > 0) return "no-buffer"; continue; }
     const int64_t need = static_cast<int64_t>(a->byte_offset()) + static_cast<int64_t>(a->size()) * a->byte_stride();
@@ -273,7 +274,7 @@ inline uint64_t ReadEverything(const draco::PointCloud &pc, const draco::Mesh *m
     }
     for (uint32_t p = 0; p < pc.num_points(); ++p) {
       a->GetMappedValue(draco::PointIndex(p), buf.data());
-      h = HashBytes(buf.data(), static_cast<size_t>(a->num_components()) * draco::DataTypeLength(a->data_type()), h);
+      h = HashBytes(buf.data(), static_cast<size_t>(a->num_components()) * vf::TypeBytes(a->data_type()), h);
       const draco::AttributeValueIndex vi = a->mapped_index(draco::PointIndex(p));
       a->GetValue(vi, buf.data());
       if (a->ConvertValue<float>(vi, fv.data())) { uint32_t u; memcpy(&u, &fv[0], 4); h ^= u; }
@@ -302,7 +303,7 @@ inline std::pair<uint64_t, uint64_t> OrderedDigest(const draco::PointCloud &pc, 
     const draco::PointAttribute *a = pc.attribute(i);
     uint32_t d[5] = {a->unique_id(), static_cast<uint32_t>(a->attribute_type()), static_cast<uint32_t>(a->data_type()), static_cast<uint32_t>(a->num_components()), a->normalized() ? 1u : 0u};
     mix(d, sizeof d);
-    const size_t n = static_cast<size_t>(a->num_components()) * draco::DataTypeLength(a->data_type());
+    const size_t n = static_cast<size_t>(a->num_components()) * vf::TypeBytes(a->data_type());
     for (uint32_t p = 0; p < np; ++p) mix(a->GetAddress(a->mapped_index(draco::PointIndex(p))), n);
   }
   if (const draco::GeometryMetadata *gm = pc.GetMetadata()) {
